@@ -77,15 +77,27 @@ func verifDump(b *strings.Builder, v reflect.Value, depth int, seen map[uintptr]
 		}
 		b.WriteString("]")
 	case reflect.Map:
-		parts := make([]string, 0, v.Len())
+		// Keys first, then the values in key order: which occurrence of a shared node
+		// prints in full and which as <ref> must not depend on Go's map iteration order
+		// (the macros of a template refer to each other)
+		type entry struct {
+			key string
+			val reflect.Value
+		}
+		entries := make([]entry, 0, v.Len())
 		iter := v.MapRange()
 		for iter.Next() {
-			var kb, vb strings.Builder
+			var kb strings.Builder
 			verifDump(&kb, iter.Key(), depth+1, seen)
-			verifDump(&vb, iter.Value(), depth+1, seen)
-			parts = append(parts, kb.String()+"=>"+vb.String())
+			entries = append(entries, entry{kb.String(), iter.Value()})
 		}
-		sort.Strings(parts)
+		sort.Slice(entries, func(i, j int) bool { return entries[i].key < entries[j].key })
+		parts := make([]string, 0, len(entries))
+		for _, e := range entries {
+			var vb strings.Builder
+			verifDump(&vb, e.val, depth+1, seen)
+			parts = append(parts, e.key+"=>"+vb.String())
+		}
 		b.WriteString("map{" + strings.Join(parts, ";") + "}")
 	case reflect.String:
 		fmt.Fprintf(b, "%q", v.String())
